@@ -14,7 +14,8 @@
       the fix. *)
 From Coq Require Import List Bool Arith.
 From TG.Model Require Import Sched SchedTrace.
-From TG.Proofs Require Import SchedProofs SchedWaitFree SchedTraceProofs.
+From TG.Gen Require Import GenServerSkel.
+From TG.Proofs Require Import SchedProofs SchedWaitFree SchedTraceProofs SchedSource.
 Import ListNotations.
 
 (** Deadlock freedom: in every reachable state that is not final some thread can step.  For every policy,
@@ -67,6 +68,27 @@ Check C08_tasks_never_blocked : forall (P : Type) (pol : policy) (items : list (
   reach pol (init (script_of items)) s -> nth_error (ws s) i = Some w -> rem w <> [] ->
   exists s', exec pol (LWorker i) s = Some s'.
 Print Assumptions C08_tasks_never_blocked.
+
+(** The protocol the theorems above speak about IS the one of the current sources: gen/GenServerSkel.v is regenerated on
+    every run from crates/lsp/src/server.rs + from_proto.rs by tools/translate/t_server.py (the ordered synchronisation
+    operations of every LanguageServer handler, of set_file_content / update_diagnostics / spawn_with_snapshot and of the
+    from_proto lookups they call, hook points included); every request skeleton, the diagnostics task, the didOpen and
+    didChange scripts and hence the script of ANY message sequence, assembled from the generated pieces only, equal
+    the model's. *)
+Theorem C08_protocol_is_source : forall (P : Type),
+  (forall k : kind, gen_skeleton k = @skeleton P k) /\
+  (forall pubs : list P, gen_diag pubs = diag pubs) /\
+  (forall (k : nat) (pubs : list P), gen_main_did_open k pubs = handler k pubs /\ gen_main_did_change k pubs = handler k pubs) /\
+  (forall k : kind, gen_request k = @block P (IReq k)) /\
+  (forall items : list (item P), gen_script items = script_of items).
+Proof. exact @skeletons_are_source. Qed.
+Check C08_protocol_is_source : forall (P : Type),
+  (forall k : kind, gen_skeleton k = @skeleton P k) /\
+  (forall pubs : list P, gen_diag pubs = diag pubs) /\
+  (forall (k : nat) (pubs : list P), gen_main_did_open k pubs = handler k pubs /\ gen_main_did_change k pubs = handler k pubs) /\
+  (forall k : kind, gen_request k = @block P (IReq k)) /\
+  (forall items : list (item P), gen_script items = script_of items).
+Print Assumptions C08_protocol_is_source.
 
 (** Non-vacuity: a reachable, non-final state of the real protocol with a live request task and a live
     diagnostics task (didOpen; definition request; didChange). *)
